@@ -432,7 +432,17 @@ type asmApp struct {
 }
 
 func asmStart(mode config.OperationMode, b asmBatch, cases []asmCase, helper, upstreamHost string) *asmApp {
-	dir, err := os.MkdirTemp("", "bA-c01asm-")
+	// generated heimdall.yaml / rules.yaml live next to the run's observation file (so nothing is left in the system
+	// temp dir if the driver dies); outside a check run, in a fresh temp dir
+	base := os.TempDir()
+	if out := os.Getenv("VERIF_OUT"); out != "" {
+		base = filepath.Join(filepath.Dir(out), "c01asm-work")
+		if err := os.MkdirAll(base, 0o700); err != nil {
+			panic(err)
+		}
+	}
+
+	dir, err := os.MkdirTemp(base, "app-")
 	if err != nil {
 		panic(err)
 	}
@@ -791,7 +801,7 @@ func asmClass(e asmEntry, proxy bool) string {
 }
 
 func asmTags(c asmCase, b asmBatch, o asmObs) []string {
-	t := []string{"asm-lookup:" + c.Lookup, "asm-creds:" + c.Creds, "asm-decision:" + asmClass(o.Decision, false),
+	t := []string{"stream:assembled", "asm-lookup:" + c.Lookup, "asm-creds:" + c.Creds, "asm-decision:" + asmClass(o.Decision, false),
 		"asm-proxy:" + asmClass(o.Proxy, true), "asm-envoy:" + asmClass(o.Envoy, false)}
 
 	for _, h := range func() []asmStep {
@@ -852,6 +862,10 @@ func asmNontrivial(c asmCase, b asmBatch) bool {
 }
 
 func TestVerifC01Assembled(t *testing.T) {
+	if out := os.Getenv("VERIF_OUT"); out != "" {
+		os.RemoveAll(filepath.Join(filepath.Dir(out), "c01asm-work")) // leftovers of a run that died
+	}
+
 	w := vf.NewWriter()
 	defer w.Close()
 
